@@ -108,6 +108,15 @@ def run(tier):
         chain_case(runner, r, oc, reqs, pend, r.choice([1, 2, 3, 4]) if thorough else r.choice([1, 2, 3]), big=thorough)
         if oc.violations:
             break
+    # a tree saved with CRLF line endings, then a model change: modulo the line terminator the result is what the LF copy gives
+    import crlfprobe
+    for i in range(12 if thorough else 3):
+        if oc.violations:
+            break
+        res = crlfprobe.run(runner, r, change_model=True)
+        oc.stat("crlf_trees_regenerated_after_model_change")
+        if res["kind"] == "violation":
+            oc.violations.append(res)
     c01.settle(oc, reqs, pend)
     return finish(PROP, tier, proof, oc, t0, trusted=TRUSTED, search=search)
 
